@@ -4,7 +4,7 @@ from . import lib, walkcommon as W, c19
 META = {
     'level': 'proof',
     'technique': 'Lean 4 refinement proof (stateful walk engine = declarative mustExtract comprehension, all trees/options/fault plans) + correspondence of the Lean model with scalibr.Scan',
-    'design_ref': 'DESIGN.md §5.0, §5 C01',
+    'design_ref': 'DESIGN.md §4 (section of C01), §5 (defects), §7 (seeded changes)',
     'text': 'Kernel-checked: in every benign configuration the model of handleFile/walkDirUnsorted/walkIndividualPaths/Run makes exactly the extraction attempts the '
             'specification lists, as a list (order, multiplicity), for all forests, option combinations and fault plans; no duplicates on trees with distinct sibling names; '
             'only required, non-excluded, size-admissible files; inventory = union of the Extract results with attribution. The model is tied to the Go engine by running '
